@@ -2,24 +2,101 @@ package logmodel
 
 import (
 	"context"
+	"errors"
 	"fmt"
+	"io"
 	"log/slog"
 	"runtime"
 	"strings"
 	"sync"
 
 	"github.com/whoisnian/glb/logger"
+	"pgregory.net/rapid"
 )
 
 // Sink records every Write call (payload copied).
 type Sink struct {
 	mu     sync.Mutex
 	Writes [][]byte
+	// Piece > 0: the destination is not atomic per Write call (a pipe, a connection, a buffered writer): it takes the
+	// payload Piece bytes at a time into one stream and lets other goroutines run in between. Torn counts the Write
+	// calls whose bytes did not end up next to each other in that stream.
+	Piece  int
+	stream []byte
+	Torn   int
+	// Fail != nil: the first Fail.Times Write calls take only the first Fail.Accept bytes (always fewer than offered) and
+	// return an error. Accepted holds every byte the destination took, from failed and successful calls alike
+	// (kept only while Fail is set).
+	Fail        *Failure
+	FailedCalls int
+	Accepted    []byte
+}
+
+// Failure describes a destination that fails for a while: a full disk that is cleaned up, a connection with a write
+// deadline, an interrupted system call.
+type Failure struct {
+	Times  int
+	Accept int
+	Kind   int // 0 plain error, 1 an error with Temporary() and Timeout() true, 2 io.ErrShortWrite
+}
+
+type temporaryError struct{}
+
+func (temporaryError) Error() string   { return "destination: resource temporarily unavailable" }
+func (temporaryError) Temporary() bool { return true }
+func (temporaryError) Timeout() bool   { return true }
+
+var FailureKindNames = []string{"plain_error", "temporary_error", "short_write"}
+
+func GenFailure() *rapid.Generator[*Failure] {
+	return rapid.Custom(func(t *rapid.T) *Failure {
+		return &Failure{
+			Times:  rapid.SampledFrom([]int{1, 1, 1, 2}).Draw(t, "failingWrites"),
+			Accept: rapid.SampledFrom([]int{0, 0, 1, 5, 7, 20, 30, 45, 100, 1 << 20}).Draw(t, "bytesAcceptedBeforeTheError"),
+			Kind:   rapid.IntRange(0, 2).Draw(t, "errorKind"),
+		}
+	})
 }
 
 func (s *Sink) Write(p []byte) (int, error) {
+	if s.Fail != nil && s.FailedCalls < s.Fail.Times {
+		s.mu.Lock()
+		defer s.mu.Unlock()
+		s.FailedCalls++
+		n := max(0, min(s.Fail.Accept, len(p)-1))
+		s.Accepted = append(s.Accepted, p[:n]...)
+		switch s.Fail.Kind {
+		case 1:
+			return n, temporaryError{}
+		case 2:
+			return n, io.ErrShortWrite
+		}
+		return n, errors.New("destination: write failed")
+	}
+	if s.Piece > 0 {
+		start := -1
+		for q := p; len(q) > 0; {
+			k := min(len(q), s.Piece)
+			s.mu.Lock()
+			if start < 0 {
+				start = len(s.stream)
+			}
+			s.stream = append(s.stream, q[:k]...)
+			s.mu.Unlock()
+			q = q[k:]
+			runtime.Gosched()
+		}
+		s.mu.Lock()
+		if start >= 0 && string(s.stream[start:start+len(p)]) != string(p) {
+			s.Torn++
+		}
+		s.mu.Unlock()
+	}
 	s.mu.Lock()
 	s.Writes = append(s.Writes, append([]byte(nil), p...))
+	if s.Fail != nil {
+		s.Accepted = append(s.Accepted, p...)
+	}
 	s.mu.Unlock()
 	return len(p), nil
 }
@@ -27,6 +104,7 @@ func (s *Sink) Write(p []byte) (int, error) {
 func (s *Sink) Reset() {
 	s.mu.Lock()
 	s.Writes = nil
+	s.Accepted = nil
 	s.mu.Unlock()
 }
 
